@@ -229,3 +229,32 @@ func addFinalizer(o store.Obj, f string) {
 	l, _ := store.Get(o, "metadata", "finalizers").([]any)
 	store.Meta(o)["finalizers"] = append(l, f)
 }
+
+// ---- slice killer ---------------------------------------------------------------------
+
+// SliceKiller is a third party that deletes ObjectSlices (kubectl delete objectslice ...).
+type SliceKiller struct{ Budget int }
+
+func (a *SliceKiller) Name() string { return "slice-killer" }
+
+func (a *SliceKiller) Ops(w *World, calm bool) []AgentOp {
+	if calm || a.Budget <= 0 || !w.Cfg.Faults["drift"] {
+		return nil
+	}
+	return []AgentOp{{Label: "delete slice", Weight: 1, Do: func(w *World) {
+		a.Budget--
+		var cands []store.Key
+		for _, k := range sortedKeys(w.Mgmt.Objs) {
+			if k.Group == PKOGroup && isSliceKind(k.Kind) {
+				cands = append(cands, k)
+			}
+		}
+		if len(cands) == 0 {
+			return
+		}
+		k := cands[w.Sch.Intn(len(cands), "slice-killer-target")]
+		w.Stats.Probe("slice-killer-delete")
+		w.Tracef("THIRD PARTY deletes slice %s", k)
+		_ = w.TP("slice-killer", w.Mgmt).Delete(k, "Background")
+	}}}
+}
